@@ -32,7 +32,6 @@ Fixpoint varint_read_go (shifts : list N) (value : N) (l : bytes) : vres :=
       | [] => VErrShort
       | b :: t =>
           let part := b mod 128 in
-          if N.eqb shift 21 && (15 <? part) then VErrBad else
           let value' := value + part * 2 ^ shift in
           if b <? 128 then
             if negb (N.eqb shift 0) && N.eqb part 0 then VErrBad else VOk value' t
